@@ -295,6 +295,47 @@ Theorem C14_store_purge : forall s n c,
 Proof. intros s n c H1 H2 H3. split; [exact (vpurge_discards s n c H1 H2 H3)|exact (keep_num_pos s)]. Qed.
 Print Assumptions C14_store_purge.
 
+(* ---------- what "full" would mean, and what is missing ---------- *)
+
+(* the obligations on a storage engine that the file-level chain needs (hypotheses of
+   C14_restore_write_restore_partial), bundled *)
+Definition C14_engine_obligations (V : Type) (decode : (bytes -> option fmeta) -> V)
+    (engine_step : fsys -> list dirent -> fsys * list dirent) : Prop :=
+  (forall f g, (forall n, f n = g n) -> decode f = decode g) /\
+  (forall fs d i m, inode_meta (fs_inodes fs) i = Some m -> only_sst_names d i ->
+                    inode_meta (fs_inodes (fst (engine_step fs d))) i = Some m) /\
+  (forall fs d i m, inode_meta (fs_inodes fs) i = Some m -> only_sst_names d i ->
+                    only_sst_names (snd (engine_step fs d)) i) /\
+  (forall fs d, store_ok fs -> NoDup (dnames d) ->
+                store_ok (fst (engine_step fs d)) /\ NoDup (dnames (snd (engine_step fs d)))).
+
+(* C14 in full for one engine: the engine meets the obligations above, a checkpoint directory it
+   writes decodes to the content of the Backup call and it fixes that view before releasing the
+   apply loop (engine_events = [BCapture; BRelease]); then every restore yields that content.
+   The implication from the obligations is C14_restore_write_restore_partial + C14_capture_before_release
+   + C14_backup_restore. That pebble, rocksdb and the mem engine meet the obligations is NOT proved:
+   it is checked on every run by the correspondence (T, I, E, K cases) and the direct oracle, and for
+   rocksdb's capture-before-release it rests on a 20 ms timer (open known finding). *)
+Definition C14_full_for_engine (V : Type) (decode : (bytes -> option fmeta) -> V)
+    (engine_step : fsys -> list dirent -> fsys * list dirent) : Prop :=
+  C14_engine_obligations V decode engine_step ->
+  forall fs cur ck k,
+  NoDup (dnames cur) -> store_ok fs -> ck_ok fs ck ->
+  (forall n i n', In (n, i) cur -> is_log n = true -> ~ In (n', i) ck) ->
+  exists fs1 d1 fs3 d3,
+    restore_plan fs cur ck = (fs1, d1, true) /\
+    let '(fs2, d2) := engine_run engine_step k fs1 d1 in
+    restore_plan fs2 d2 ck = (fs3, d3, true) /\
+    content V decode fs1 d1 = content V decode fs ck /\ content V decode fs2 ck = content V decode fs ck /\
+    content V decode fs3 d3 = content V decode fs ck /\ content V decode fs3 ck = content V decode fs ck.
+
+Theorem C14_full_for_engine_partial : forall V decode engine_step, C14_full_for_engine V decode engine_step.
+Proof.
+  intros V decode engine_step [H1 [H2 [H3 H4]]] fs cur ck k.
+  exact (restore_write_restore V decode H1 engine_step H2 H3 H4 fs cur ck k).
+Qed.
+Print Assumptions C14_full_for_engine_partial.
+
 (* ---------- non-vacuity ---------- *)
 Example C14_ex_name : enc_name 7 100 =
   [48;48;48;48;48;48;48;48;48;48;48;48;48;48;48;55;45;48;48;48;48;48;48;48;48;48;48;48;48;48;48;54;52].
